@@ -11,12 +11,15 @@ Definition change_eqb (a b : change) : bool :=
   N.eqb (c_line a) (c_line b) && list_eqb N.eqb (c_findings a) (c_findings b).
 Definition unfixed_eqb : unfixed -> unfixed -> bool := pair_eqb N.eqb N.eqb.
 
-(** observation of one apply() call: None = it raised; else (returned ChangeSet or None, file text afterwards, unfixed) *)
-Definition obs := option (option (str * list change) * str * list unfixed).
+(** observation of one apply() call: None = it raised; else (returned ChangeSet or None, file content afterwards,
+    unfixed findings, a failure was recorded for the file) *)
+Definition obs := option (option (str * list change) * str * list unfixed * bool).
 
 Record regex_case := {
   rc_sast : bool;
-  rc_lines : list str;
+  rc_raw : str;               (* the file content: the decoded text, or a code for the bytes when they do not decode *)
+  rc_decodes : bool;
+  rc_lines : list str;        (* splitlines(keepends) of the decoded text; [] when not rc_decodes *)
   rc_graph : list (str * str);
   rc_fc : list result;
   rc_results : option (list result);
@@ -24,37 +27,43 @@ Record regex_case := {
   rc_real : obs;
   rc_dry : obs }.
 
-Definition out_eqb (m : apply_out (D := option str)) (o : option (str * list change) * str * list unfixed) : bool :=
-  let '(ret, file, unf) := o in
+Definition out_eqb (m : apply_out (D := option str)) (o : option (str * list change) * str * list unfixed * bool) : bool :=
+  let '(ret, file, unf, failed) := o in
+  negb failed &&
   match ao_ret m, ret with
   | None, None => true
   | Some cs, Some (d, chs) => option_eqb str_eqb (cs_diff cs) (Some d) && list_eqb change_eqb (cs_changes cs) chs
   | _, _ => false
   end && str_eqb (ao_file m) file && list_eqb unfixed_eqb (ao_unfixed m) unf.
 
-Definition model_run (c : regex_case) (dry : bool) : option (apply_out (D := option str)) :=
+Definition model_run (c : regex_case) (dry : bool) : file_outcome (D := option str) :=
   let sub := sub_of (rc_graph c) in
+  let decoded := if rc_decodes c then Some (rc_lines c) else None in
   if rc_sast c
-  then sast_apply sub (rc_fc c) (diff_of (rc_diffs c)) sast_regex_findings_index dry (rc_results c) (rc_lines c)
-  else Some (regex_apply sub (rc_fc c) (diff_of (rc_diffs c)) regex_findings_index dry (rc_lines c)).
+  then sast_apply_file sub (rc_fc c) (diff_of (rc_diffs c)) regex_apply_isolation sast_regex_findings_index dry (rc_results c) decoded
+  else regex_apply_file sub (rc_fc c) (diff_of (rc_diffs c)) regex_apply_isolation regex_findings_index dry decoded.
 
-Definition obs_matches (m : option (apply_out (D := option str))) (o : obs) : bool :=
+Definition obs_matches (c : regex_case) (m : file_outcome (D := option str)) (o : obs) : bool :=
   match m, o with
-  | None, None => true
-  | Some m, Some o => out_eqb m o
+  | Raises, None => true
+  | Done m, Some o => out_eqb m o
+  | Failed _ unf, Some (ret, file, unf', failed) =>
+      match ret with None => true | Some _ => false end && str_eqb file (rc_raw c) && list_eqb unfixed_eqb unf unf' && failed
   | _, _ => false
   end.
 
 Definition regex_model_ok (c : regex_case) : bool :=
-  obs_matches (model_run c true) (rc_dry c) && obs_matches (model_run c false) (rc_real c).
+  obs_matches c (model_run c true) (rc_dry c) && obs_matches c (model_run c false) (rc_real c).
 
 (** the spec, evaluated on the observation; each clause separately so that the harness can name what failed.
-    For the SAST class with results=None the property has no opinion. *)
-Definition no_opinion (c : regex_case) : bool :=
-  rc_sast c && match rc_results c with None => true | Some _ => false end.
+    A file that does not decode, and the SAST class handed results=None (its _apply raises), are the business of
+    [regex_spec_isolation_ok]: the other clauses skip them. *)
+Definition fails_expected (c : regex_case) : bool :=
+  negb (rc_decodes c) || (rc_sast c && match rc_results c with None => true | Some _ => false end).
+Definition no_opinion (c : regex_case) : bool := fails_expected c.
 Definition targets (c : regex_case) : N -> bool :=
   if rc_sast c then sast_targets (match rc_results c with Some rs => rs | None => [] end) else all_lines.
-Definition on_obs (c : regex_case) (f : bool -> option (str * list change) * str * list unfixed -> bool) : bool :=
+Definition on_obs (c : regex_case) (f : bool -> option (str * list change) * str * list unfixed * bool -> bool) : bool :=
   no_opinion c ||
   match rc_real c, rc_dry c with
   | Some r, Some d => f false r && f true d
@@ -63,11 +72,11 @@ Definition on_obs (c : regex_case) (f : bool -> option (str * list change) * str
 
 (** file bytes: untargeted lines identical, targeted lines substituted, dry-run writes nothing *)
 Definition regex_spec_file_ok (c : regex_case) : bool :=
-  on_obs c (fun dry o => let '(_, file, _) := o in str_eqb file (spec_file (sub_of (rc_graph c)) (targets c) dry (rc_lines c))).
+  on_obs c (fun dry o => let '(_, file, _, _) := o in str_eqb file (spec_file (sub_of (rc_graph c)) (targets c) dry (rc_lines c))).
 (** None iff no edit; one change per edit, numbered, in order; diff = create_diff(original, updated) *)
 Definition regex_spec_changes_ok (c : regex_case) : bool :=
   on_obs c (fun dry o =>
-    let '(ret, _, _) := o in
+    let '(ret, _, _, _) := o in
     let upd := spec_updated (sub_of (rc_graph c)) (targets c) (rc_lines c) in
     match edited_lines (rc_lines c) upd, ret with
     | [], None => true
@@ -77,7 +86,7 @@ Definition regex_spec_changes_ok (c : regex_case) : bool :=
 (** every reported change carries exactly the findings whose range contains its line *)
 Definition regex_spec_findings_ok (c : regex_case) : bool :=
   on_obs c (fun dry o =>
-    let '(ret, _, _) := o in
+    let '(ret, _, _, _) := o in
     match ret with
     | None => true
     | Some (_, chs) => forallb (fun ch => list_eqb N.eqb (c_findings ch) (findings_for_location (rc_fc c) (c_line ch))) chs
@@ -85,6 +94,20 @@ Definition regex_spec_findings_ok (c : regex_case) : bool :=
 (** SAST: targeted lines left unchanged are reported unfixed with their findings; the other class reports none *)
 Definition regex_spec_unfixed_ok (c : regex_case) : bool :=
   on_obs c (fun dry o =>
-    let '(_, _, unf) := o in
+    let '(_, _, unf, _) := o in
     list_eqb unfixed_eqb unf
       (if rc_sast c then spec_unfixed (sub_of (rc_graph c)) (rc_fc c) (targets c) (rc_lines c) else [])).
+
+(** nothing escapes apply(): a file that cannot be read or transformed is a recorded failure, left untouched, with
+    every finding of the file reported unfixed at line 0; any other file is processed without a failure *)
+Definition regex_spec_isolation_ok (c : regex_case) : bool :=
+  let ok (o : obs) :=
+    match o with
+    | None => false
+    | Some (ret, file, unf, failed) =>
+        if fails_expected c
+        then match ret with None => true | Some _ => false end && str_eqb file (rc_raw c) && failed &&
+             list_eqb unfixed_eqb unf (map (fun f => (f, 0%N)) (all_findings (rc_fc c)))
+        else negb failed
+    end in
+  ok (rc_real c) && ok (rc_dry c).
